@@ -39,6 +39,12 @@ func StartKeygenCommon(taproot bool, group curve.Curve, participants []party.ID,
 			info.ProtocolID = protocolID
 		}
 
+		// A refresh is a different protocol from a key generation over the same
+		// parties: it must not share its session tag.
+		if privateShare != nil && publicKey != nil {
+			info.ProtocolID += "-refresh"
+		}
+
 		helper, err := round.NewSession(info, sessionID, nil)
 		if err != nil {
 			return nil, fmt.Errorf("keygen.StartKeygen: %w", err)
